@@ -23,7 +23,7 @@ const (
 
 // ---------------------------------------------------------------- symbolic construction
 
-func c06Record() ch.Record {
+func c06Record(first bool) ch.Record {
 	r := ch.Record{
 		ID:                zzsym.U64("rec.id"),
 		Index:             zzsym.U64("rec.index"),
@@ -33,7 +33,8 @@ func c06Record() ch.Record {
 		SyncOnce:          zzsym.Bool("rec.synconce"),
 		SizeBytes:         int(zzsym.U16("rec.size")),
 	}
-	if zzsym.Thorough() && zzsym.Choice("rec.payload", 2) == 1 {
+	if zzsym.Thorough() && first {
+		// thorough: the first record of every list carries a one-byte payload, the others none
 		r.Payload = zzsym.Bytes("rec.payload.b", 1)
 	}
 	return r
@@ -42,7 +43,7 @@ func c06Record() ch.Record {
 func c06Records(n int) []ch.Record {
 	out := make([]ch.Record, n)
 	for i := range out {
-		out[i] = c06Record()
+		out[i] = c06Record(i == 0)
 	}
 	return out
 }
@@ -70,11 +71,8 @@ func c06Waiter(op int, nRecords int) *AppendWaiter {
 		OpID:              ch.OpID(zzsym.U64("waiter.opid")),
 		Target:            zzsym.U64("waiter.target"),
 		CommitMode:        ch.CommitMode(zzsym.U8("waiter.mode")),
-		OmitResultPayload: op == 2, // quick: concrete (payloads are nil in quick, the flag only forks)
+		OmitResultPayload: op == 2, // concrete: a symbolic flag only forks once per answered waiter
 		Records:           c06Records(nRecords),
-	}
-	if zzsym.Thorough() {
-		w.OmitResultPayload = zzsym.Bool("waiter.omit")
 	}
 	return w
 }
@@ -137,11 +135,14 @@ func c06PendingPart(s *ChannelState, level int, noBatch, oneRec bool) {
 		s.InflightAppend = op
 		zzsym.Assume(c06InvInflightShape(s))
 		op.Records = c06Records(total)
-		if !zzsym.Thorough() {
-			// quick: ApplyAppendStored/ApplyQuorumCommitted fill in a zero record epoch with a
-			// branch per record; keep exactly the first record's epoch zero so that this does not fork
-			for i := range op.Records {
+		// ApplyAppendStored/ApplyQuorumCommitted fill in a zero record epoch with a branch per
+		// record: quick keeps exactly the first record's epoch zero (no fork), thorough leaves the
+		// first two symbolic
+		for i := range op.Records {
+			if !zzsym.Thorough() {
 				zzsym.Assume((op.Records[i].Epoch == 0) == (i == 0))
+			} else if i >= 2 {
+				zzsym.Assume(op.Records[i].Epoch != 0)
 			}
 		}
 	}
@@ -504,18 +505,22 @@ func c06Fence() ch.Fence {
 		OpID:        ch.OpID(zzsym.U64("fence.opid")),
 	}
 	f.ChannelKey = ch.ChannelKey(zzsym.String("fence.key.s", 1))
-	if zzsym.Thorough() {
-		switch zzsym.Choice("fence.key", 3) {
-		case 1:
-			f.ChannelKey = c06Key
-		case 2:
-			f.ChannelKey = ""
-		}
+	if zzsym.Thorough() && zzsym.Choice("fence.key.empty", 2) == 1 {
+		f.ChannelKey = ""
 	}
 	return f
 }
 
 // ---------------------------------------------------------------- entries
+
+// Harness_C06_Init: the induction base. A freshly constructed state satisfies INV.
+func Harness_C06_Init() {
+	s := NewChannelState(ch.ChannelKey(zzsym.String("key", 1)), ch.NodeID(zzsym.U64("local")), zzsym.U64("gen"))
+	zzsym.Reach("init")
+	zzsym.Assert(c06Inv(s), "NewChannelState does not satisfy INV")
+	zzsym.Assert(s.InflightAppend == nil && len(s.PendingAppends) == 0 && s.HW == 0 && s.LEO == 0, "NewChannelState is not empty")
+	zzsym.Observe("init", s.LEO, s.HW, s.Generation)
+}
 
 // Harness_C06_ApplyMeta: metadata apply; older (epoch, leader epoch) pairs and same-fence leader
 // switches are rejected with ErrStaleMeta and change nothing.
